@@ -1282,15 +1282,20 @@ class Trimesh(Geometry3D):
 
         Alters `self.faces` and `self.vertices`
         """
+        if not util.is_shape(self.vertices, (-1, 3)):
+            return
+
+        # (len(self.vertices), ) bool, mask for vertices
+        vertex_mask = np.isfinite(self.vertices).all(axis=1)
+
         if util.is_shape(self.faces, (-1, 3)):
-            # (len(self.faces), ) bool, mask for faces
-            face_mask = np.isfinite(self.faces).all(axis=1)
+            # (len(self.faces), ) bool, mask for faces: a face which
+            # references a vertex that is about to be removed has to go
+            # as well, otherwise it would be re-pointed to another vertex
+            face_mask = vertex_mask[self.faces].all(axis=1)
             self.update_faces(face_mask)
 
-        if util.is_shape(self.vertices, (-1, 3)):
-            # (len(self.vertices), ) bool, mask for vertices
-            vertex_mask = np.isfinite(self.vertices).all(axis=1)
-            self.update_vertices(vertex_mask)
+        self.update_vertices(vertex_mask)
 
     def unique_faces(self) -> NDArray[np.bool_]:
         """
